@@ -118,6 +118,30 @@ def gen(chk):
                 # `~@` substitutes the element (an object): compare by the `i` of each result instead of printing closures
                 cases.append(("three/%s@/%s" % (add, form), pre + body + "\nr=@{|e| e.i if e.proto == Obj && e.keys.has?('i) else e}", tr,
                               (oc[0], oc[1].replace("<o1>", "1").replace("<o2>", "2").replace("<o3>", "3"))))
+    # elements that lack the property (property form): NoPropErr is a failed result
+    for add in ADDS:
+        pre = "B := %{1: 'v, 2: 'v, 3: 'v}\nos := [mk(1, B), {i: 2}, mk(3, B)]\n"
+        if add == "~":
+            tr, oc = ["c1", "c3"], ("val", "[10, 2, 30]")
+        else:
+            tr, oc = ["c1"], ("err", "property `m` is not defined.")
+        cases.append(("noprop/%s@/prop" % add, pre + "r := os%s@m\nr=@{|e| e.i if e.proto == Obj && e.keys.has?('i) else e}" % add, tr, oc))
+        cases.append(("noprop/%s@/lit" % add, pre + "r := os%s@{|x| x.m}\nr=@{|e| e.i if e.proto == Obj && e.keys.has?('i) else e}" % add, tr, oc))
+    # a chain argument digests the collected results even when nothing was collected
+    for add in ADDS:
+        for recv, why in (("[]", "empty"), ("0", "empty-int"), ("[nil, nil]", "all-nil")):
+            for carg, exp_empty in (("{z: 1}", '{"z": 1}'), ("%{0: 0}", "%{0: 0}"), ("[9]", "[9]")):
+                if why == "all-nil" and add in ("=", "~"):
+                    continue   # nils are kept: digest of nils is another matter
+                for form, expr in (("prop", "%s%s@(%s)S" % (recv, add, carg)),
+                                   ("lit", "%s%s@(%s){|x| x.S}" % (recv, add, carg)),
+                                   ("var", "f := {|x| x.S}\nr := %s%s@(%s)^f" % (recv, add, carg))):
+                    if why == "all-nil":
+                        expr = expr.replace("S", "nil?.{nil}") if False else expr
+                    body = expr if form == "var" else "r := " + expr
+                    if why == "all-nil" and add != "&":
+                        continue
+                    cases.append(("digest-empty/%s@/%s/%s" % (add, form, why), body + "\nr", [], ("val", exp_empty)))
     # scalar chains: three forms on one object, and literal form on nil / value receivers
     for add in ADDS:
         for b in "vnr":
@@ -165,7 +189,7 @@ def main(chk):
         imp = r["impl"]
         eout = "".join(t + "\n" for t in tr)
         if oc[0] == "err":
-            good = imp["kind"] == "error" and imp.get("errk") == "Err" and imp.get("errmsg") == oc[1] and imp.get("out") == eout
+            good = imp["kind"] == "error" and imp.get("errk") in ("Err", "NoPropErr") and imp.get("errmsg") == oc[1] and imp.get("out") == eout
         else:
             good = imp["kind"] == "value" and imp.get("repr") == oc[1] and imp.get("out") == eout
         if not good:
